@@ -242,14 +242,17 @@ func (c *callback) Replace(name string, fn func(*DB)) error {
 	// same name would be sorted on its own, and with Before/After("*") requests the old entry (and its
 	// old handler) ends up behind the new one and wins
 	if c.before == "" && c.after == "" && c.match == nil {
+		found := false
 		for i := len(c.processor.callbacks) - 1; i >= 0; i-- {
 			if v := c.processor.callbacks[i]; v.name == name {
-				if !v.remove {
-					v.handler = fn
-					return c.processor.compile()
+				if v.remove {
+					break
 				}
-				break
+				v.handler, found = fn, true
 			}
+		}
+		if found {
+			return c.processor.compile()
 		}
 	}
 	c.processor.callbacks = append(c.processor.callbacks, c)
